@@ -535,6 +535,8 @@ theorem mhok_stepMeta (p : Pool) (m : Nat) (h : MHOK p) : MHOK (p.stepMeta m) :=
 
 /-! ### flush / gather_and_close / until_closed: `lost` may be set, never reset; tasks untouched -/
 
+theorem mhok_modApi (p : Pool) (a : Nat) (f : Api → Api) (h : MHOK p) : MHOK (p.modApi a f) := h.eq _
+
 theorem mhok_flushAfter2 (p : Pool) (a : Nat) (o : Outcome) (h : MHOK p) : MHOK (p.flushAfter2 a o) := by
   unfold flushAfter2
   split
@@ -552,7 +554,7 @@ theorem mhok_flushAfter1 (p : Pool) (a : Nat) (re : Bool) (o : Outcome) (h : MHO
       h.eq _
     split
     · exact mhok_flushAfter2 _ a _ ((h1.eq _).tame (tame_gatherStart _ _ _ _ _))
-    · exact (((h1.eq _).tame (tame_gatherStart _ _ _ _ _)).eq _)
+    · exact mhok_modApi _ a _ ((h1.eq _).tame (tame_gatherStart _ _ _ _ _))
 
 theorem mhok_flushStage1 (p : Pool) (a : Nat) (re : Bool) (h : MHOK p) : MHOK (p.flushStage1 a re) := by
   unfold flushStage1
@@ -561,7 +563,7 @@ theorem mhok_flushStage1 (p : Pool) (a : Nat) (re : Bool) (h : MHOK p) : MHOK (p
     h.eq _
   split
   · exact mhok_flushAfter1 _ a re _ (h1.tame (tame_gatherStart _ _ _ _ _))
-  · exact (h1.tame (tame_gatherStart _ _ _ _ _)).eq _
+  · exact mhok_modApi _ a _ (h1.tame (tame_gatherStart _ _ _ _ _))
 
 theorem mhok_gacAfter2 (p : Pool) (a : Nat) (o : Outcome) (h : MHOK p) : MHOK (p.gacAfter2 a o) := by
   unfold gacAfter2
@@ -581,14 +583,14 @@ theorem mhok_gacAfter1 (p : Pool) (a : Nat) (re : Bool) (g : Nat) (h : MHOK p) :
       h.eq _
     split
     · exact mhok_gacAfter2 _ a _ (h1.tame (tame_gatherStart _ _ _ _ _))
-    · exact (h1.tame (tame_gatherStart _ _ _ _ _)).eq _
+    · exact mhok_modApi _ a _ (h1.tame (tame_gatherStart _ _ _ _ _))
 
 theorem mhok_gacStage1 (p : Pool) (a : Nat) (re : Bool) (h : MHOK p) : MHOK (p.gacStage1 a re) := by
   unfold gacStage1
   simp only
   split
   · exact mhok_gacAfter1 _ a re _ ((h.eq _).tame (tame_gatherStart _ _ true a 0))
-  · exact ((h.eq _).tame (tame_gatherStart _ _ true a 0)).eq _
+  · exact mhok_modApi _ a _ ((h.eq _).tame (tame_gatherStart _ _ true a 0))
 
 theorem mhok_stepApi (p : Pool) (a : Nat) (h : MHOK p) : MHOK (p.stepApi a) := by
   unfold stepApi
